@@ -136,7 +136,7 @@ PROPS["C17"] = {"units": [
 
 PROPS["C12"] = {"units": [
     plain_unit("regress", "udpl", "^TestRegressC12", overlay="full"),
-    rapid_unit("schedules", "udpl", "^TestC12Schedules$", 600, 16 * 5000, overlay="full"),
+    rapid_unit("schedules", "udpl", "^TestC12Schedules$", 500, 16 * 3000, overlay="full"),
 ]}
 
 PROPS["C11"] = {"units": [
